@@ -23,6 +23,7 @@ Lemma rib_tables_as_modelled :
   /\ gen_file_items_first = true /\ gen_block_items_first = true /\ gen_decl_init_first = true
   /\ gen_barrier_checked_first = true /\ gen_params_before_body = true /\ gen_resolve_conditions = true.
 Proof. vm_compute. repeat split. Qed.
+(* [gen_visit_excess_args] is not pinned: the model follows it, see Proofs/ResolveScoping.v *)
 
 Lemma holds_locals_Locals : holds_locals TLocals = true. Proof. reflexivity. Qed.
 Lemma holds_locals_Params : holds_locals TParams = true. Proof. reflexivity. Qed.
@@ -419,3 +420,34 @@ Section Refine.
       apply (enter_block_ok b [] [] env0 env0 (Some fl) e cents fents (HQb b) denotes_nil denotes_nil); [constructor | exact D].
   Qed.
 End Refine.
+
+(* ---- what the global lookups can return ---- *)
+
+Definition not_user (r : res) : Prop :=
+  match r with ROk d => user_id d = None | RBarrier _ | RSkipped => False | _ => True end.
+
+Lemma global_fun_in_kind g ribs al x : not_user (global_fun_in ribs g al x).
+Proof.
+  induction ribs as [|r t IH]; cbn [global_fun_in]; [exact I|].
+  destruct r; try exact IH. destruct al as [l|]; [|exact IH]. destruct (ins_opcode g l x); [reflexivity | exact IH].
+Qed.
+
+Lemma enum_unqualified_kind g col x : not_user (enum_unqualified g col x).
+Proof.
+  unfold enum_unqualified.
+  assert (U : not_user match enums_with g x with [e] => ROk (DEnum e x) | _ => RAmbiguous end).
+  { destruct (enums_with g x) as [|e [|e' t]]; cbn; auto. }
+  destruct col as [e|]; [destruct (enum_has g e x); [reflexivity | exact U] | exact U].
+Qed.
+
+Lemma global_var_in_kind g ribs al col x : not_user (global_var_in ribs g al col x).
+Proof.
+  induction ribs as [|r t IH]; cbn [global_var_in]; [exact I|].
+  destruct r; try exact IH.
+  - destruct al as [l|]; [|exact IH]. destruct (has_reg g l x); [reflexivity | exact IH].
+  - destruct (memz x (ge_builtins g)); [reflexivity | exact IH].
+  - destruct (enums_with g x); [exact IH | apply enum_unqualified_kind].
+Qed.
+
+Lemma enum_qualified_kind g e x : not_user (enum_qualified g e x).
+Proof. unfold enum_qualified. destruct (enum_declared g e); [destruct (enum_has g e x)|]; cbn; auto. Qed.
